@@ -288,11 +288,93 @@ def float_to_int_grid_search(log):
     return {'witness': None, 'grid_points': len(fs)}
 
 
+def ticks_grid_search(log):
+    """one tick per function call / loop back-edge: N calls of each kind must be counted as at least N ticks."""
+    build(log)
+    n = 40
+    progs = {
+        'def call': 'def f(x):\n  return x\n' + 'f(1)\n' * n,
+        'lambda call': 'g = lambda x: x\n' + 'g(1)\n' * n,
+        'list method call': 'l = []\n' + 'l.append(1)\n' * n,
+        'string method call': 's = "a"\nr = []\n' + 'r = s.split("x")\n' * n,
+        'dict method call': 'd = {}\n' + 'd.setdefault(1, 2)\n' * n,
+        'method call in def': 'def f(l):\n' + '  l.append(1)\n' * n + 'f([])\n',
+        'for loop': 'for i in range(%d):\n  pass\n' % n,
+    }
+    for name, src in progs.items():
+        p = subprocess.run([BIN, 'ticks', src], capture_output=True, text=True, timeout=120)
+        out = p.stdout.strip()
+        try:
+            t = int(out.rsplit('ticks=', 1)[1])
+        except Exception:
+            continue
+        if t < n:
+            return {'witness': {'program': '%s x %d' % (name, n), 'source_head': src[:80], 'real_library': out,
+                                'expected': 'ticks >= %d (one tick per function call or loop back-edge)' % n}}
+    return {'witness': None, 'programs': len(progs)}
+
+
+def parser_grid_search(log):
+    """`a OP1 b OP2 c` for every operator pair in three contexts: accepted and grouped as CPython's grammar does
+    (comparison chains, which Starlark forbids, must be rejected)."""
+    import ast
+    build(log)
+    ops = ['or', 'and', '==', '!=', '<', '>', '<=', '>=', 'in', 'not in', '|', '^', '&', '<<', '>>', '+', '-', '*', '/', '//', '%']
+    cmpops = {'==', '!=', '<', '>', '<=', '>=', 'in', 'not in'}
+    names = {ast.Or: 'or', ast.And: 'and', ast.Eq: '==', ast.NotEq: '!=', ast.Lt: '<', ast.Gt: '>', ast.LtE: '<=', ast.GtE: '>=',
+             ast.In: 'in', ast.NotIn: 'not in', ast.BitOr: '|', ast.BitXor: '^', ast.BitAnd: '&', ast.LShift: '<<', ast.RShift: '>>',
+             ast.Add: '+', ast.Sub: '-', ast.Mult: '*', ast.Div: '/', ast.FloorDiv: '//', ast.Mod: '%'}
+
+    def show(e):
+        if isinstance(e, ast.Name):
+            return e.id
+        if isinstance(e, ast.BinOp):
+            return '(%s %s %s)' % (show(e.left), names[type(e.op)], show(e.right))
+        if isinstance(e, ast.BoolOp):
+            r = show(e.values[0])
+            for v in e.values[1:]:
+                r = '(%s %s %s)' % (r, names[type(e.op)], show(v))
+            return r
+        if isinstance(e, ast.Compare) and len(e.ops) == 1:
+            return '(%s %s %s)' % (show(e.left), names[type(e.ops[0])], show(e.comparators[0]))
+        if isinstance(e, ast.UnaryOp) and isinstance(e.op, ast.Not):
+            return '(not %s)' % show(e.operand)
+        raise ValueError('chain')
+    cases = []
+    for o1 in ops:
+        for o2 in ops:
+            for ctx, tmpl, wrap in (('stmt', 'x = %s', 'x = %s'), ('arg', 'f(%s)', 'f(%s)'), ('notarg', 'f(not %s)', None)):
+                expr = 'a %s b %s c' % (o1, o2)
+                src = tmpl % expr
+                try:
+                    tree = ast.parse(('not ' if ctx == 'notarg' else '') + expr, mode='eval').body
+                    want = 'OK ' + (wrap % show(tree) if wrap else 'f(%s)' % show(tree))
+                except ValueError:
+                    want = 'ERR'
+                cases.append((src, want))
+    path = os.path.join(HERE, '.work', 'parse_in.star')
+    open(path, 'w').write('\n'.join(c[0] for c in cases) + '\n')
+    p = subprocess.run([BIN, 'parsefile', path], capture_output=True, text=True, timeout=300)
+    outs = p.stdout.splitlines()
+    for (src, want), o in zip(cases, outs):
+        if o != want:
+            return {'witness': {'source': src, 'real_library': o, 'oracle_cpython_grammar': want}, 'grid_points': len(cases)}
+    return {'witness': None, 'grid_points': len(cases)}
+
+
 def find_witness(prop, v, repo, log):
     if v.get('backend') == 'kani/cbmc':
         return kani_replay(v, log)
     oid = v.get('obligation', '')
     fn = v.get('function', '')
+    if prop == 'C06':
+        r = parser_grid_search(log)
+        r['search'] = 'a OP1 b OP2 c for all 21x21 operator pairs as statement, call argument and under prefix not: acceptance and grouping vs CPython ast'
+        return r
+    if 'C15.calls.' in oid:
+        r = ticks_grid_search(log)
+        r['search'] = 'N calls of each kind (def, lambda, list/str/dict method, method inside def, for loop) vs Evaluator::get_total_tick_count on the real library'
+        return r
     if 'C10.conv.' in oid or 'from_f64' in fn:
         r = float_to_int_grid_search(log)
         r['search'] = 'int(f) for doubles around 2^k (k up to 200) and their neighbours on the real library vs Python'
